@@ -9,6 +9,11 @@ class EvalError(Exception):
     pass
 
 
+def _extreme_defs():
+    from . import tensor
+    return tensor.EXTREME_DEFS
+
+
 def ev(e, env, b=None):
     """env: {Symbol or str: number | array | callable}; b: bound index values"""
     b = b or {}
@@ -123,6 +128,25 @@ def ev(e, env, b=None):
         return math.exp(ev(e.args[0], env, b))
     if isinstance(e, sp.log):
         return math.log(ev(e.args[0], env, b))
+    if isinstance(e, sp.Function) and type(e).__name__ in _extreme_defs():
+        import itertools
+        name, bound, body, axes, shape = _extreme_defs()[type(e).__name__]
+        rest = [ev(a, env, b) for a in e.args]
+        dims = [int(ev(d_, env, b)) for d_ in shape]
+        b2 = dict(b)
+        it = iter(rest)
+        for k_, sy in enumerate(bound):
+            if k_ not in axes:
+                b2[sy] = next(it)
+        vals = []
+        for cell in itertools.product(*[range(dims[k_]) for k_ in axes]):
+            for k_, c_ in zip(axes, cell):
+                b2[bound[k_]] = c_
+            try:
+                vals.append(ev(body, env, b2))
+            except EvalError:
+                pass
+        return (max if name == 'max' else min)(vals)
     if isinstance(e, sp.Function):
         nm = type(e).__name__
         f = env.get(nm)
